@@ -215,32 +215,45 @@ NEG_WANT = {"dominates+": "Dominates", "dominates-": "Dominates", "idom": "Idom"
             "preorder": "DomPreorder", "postorder": "DomPostorder"}
 
 
+# a hand-written record with correct answers (independent of the code under test):
+#   1 -> 2,3   2 -> 4   3 -> 4   4 -> 5,6   5 -> 4   6 -> (return)
+NEG_BASE = {
+    "name": "NEGBASE", "mode": "synthetic", "n": 6,
+    "succs": [[2, 3], [4], [4], [5, 6], [4], []], "preds": [[], [1], [1], [2, 3, 5], [4], [4]],
+    "recover": 0, "idom": [0, 1, 1, 1, 4, 4], "dominees": [[2, 3, 4], [], [], [5, 6], [], []],
+    "dom": [[1, 1], [1, 2], [1, 3], [1, 4], [1, 5], [1, 6], [2, 2], [3, 3], [4, 4], [4, 5], [4, 6], [5, 5], [6, 6]],
+    "preorder": [1, 2, 3, 4, 5, 6], "postorder": [2, 3, 5, 6, 4, 1],
+    "count": 1, "others": [], "comments": ["", "", "", "", "", ""], "index_ok": True, "err": "",
+}
+
+
 def negative_records(fns):
-    """Corrupted copies of one recorded function (each kind of answer once); they travel through the
-    same TLC run as the real records and every one of them must be rejected for the right law."""
-    base = [f for f in fns if f["n"] >= 4 and not f["recover"] and any(f["idom"][f["idom"][b] - 1] for b in range(f["n"]) if f["idom"][b])]
-    if not base:
-        raise Inconclusive("negative self-test: no recorded function with a dominator tree of depth >= 2")
-    fn = base[len(base) // 2]
-    out = []
+    """The hand-written base record (must be accepted) and corrupted copies of it, one per kind of
+    answer (each must be rejected for the right law); they travel through the same TLC run as the
+    real records."""
+    out = [json.loads(json.dumps(NEG_BASE))]
     for h in NEG_HOWS:
-        g = corrupt(fn, h)
+        g = corrupt(NEG_BASE, h)
         if g is None:
-            raise Inconclusive("negative self-test: cannot corrupt %s in %s" % (h, fn["name"]))
-        g["name"] = "NEG:%s:%s" % (h, fn["name"])
+            raise Inconclusive("negative self-test: cannot corrupt %s" % h)
+        g["name"] = "NEG:%s" % h
         out.append(g)
     return out
 
 
 def split_negatives(failures, negs):
     """Remove the expected rejections of the corrupted records; complain if one was accepted."""
-    got = {f["fn"]["name"]: f for f in failures if f["fn"]["name"].startswith("NEG:")}
+    got = {f["fn"]["name"]: f for f in failures if f["fn"]["name"].startswith("NEG")}
+    if "NEGBASE" in got:
+        raise Inconclusive("negative self-test: the correct hand-written record was rejected: %s" % got["NEGBASE"]["bad"][:3])
     for g in negs:
+        if g["name"] == "NEGBASE":
+            continue
         h = g["name"].split(":")[1]
         f = got.get(g["name"])
         if f is None or f["kind"] != "law" or NEG_WANT[h] not in set(w["law"] for w in f["bad"]):
             raise Inconclusive("negative self-test: corrupted %s answer was accepted (%s)" % (h, f))
-    return [f for f in failures if not f["fn"]["name"].startswith("NEG:")]
+    return [f for f in failures if not f["fn"]["name"].startswith("NEG")]
 
 
 # ---------------------------------------------------------------------------------------------
@@ -311,7 +324,7 @@ def run(ctx):
         gen = {"DomGen_n5.cfg": r5, "DomGen_sw.cfg": rs, "DomGen_sw4.cfg": rs4, "DomGen_rec.cfg": rr}
         small = [c for c in r5.cases if c["n"] - (1 if c["recover"] else 0) <= 4]
         five = [c for c in r5.cases if c["n"] - (1 if c["recover"] else 0) == 5]
-        chosen = small + rs.cases + vlib.sample(ctx, five, 50000) + vlib.sample(ctx, rs4.cases, 20000)
+        chosen = small + rs.cases + vlib.sample(ctx, five, 30000) + vlib.sample(ctx, rs4.cases, 10000)
         exhaustive_what = ("all %d rooted ordered digraphs with <= 4 nodes (out-degree <= 2, with/without recover) and all %d graphs with <= 3 nodes and one "
                            "switch of degree 3-4 realised and validated; seeded samples of the %d 5-node graphs and the %d 4-node one-switch graphs"
                            % (len(small), len(rs.cases), len(five), len(rs4.cases)))
@@ -413,7 +426,7 @@ def run(ctx):
                        "by_origin": {tag: len(fns) for tag, fns in groups},
                        "rejected": len([f for f in failures if f["kind"] == "law"])},
         "blocks_histogram": {str(k): sizes[k] for k in sorted(sizes)},
-        "negative_selftests_rejected": len(negs),
+        "negative_selftests_rejected": len(negs) - 1,
         "samples": [chosen[len(chosen) // 2], {"source": index[sorted(index)[len(index) // 2]][1]},
                     {k: sample_fn[k] for k in ("name", "mode", "n", "succs", "recover", "idom", "dominees", "preorder", "postorder")}],
         "trusted_base": ["TLC", "go toolchain, go/types", "h-irexport-dom reads only exported go/ir API"],
